@@ -6,6 +6,7 @@ RULE = ("len.write n: every n within +-300 of each length-class boundary plus ra
         "len.read: every first octet x tails of 0-2 octets (all) and 3-5 octets from a boundary alphabet x 3 modes, "
         "complete and truncated; run: whole values with the length octets under test and matching content. "
         "non-trivial = request accepted by the implementation (a length was written/read).")
+CROSS = {'C02': 2500, 'C06': 1000}   # cross streams: samples of neighbouring properties' request streams (outcomes, model <-> implementation)
 EXHAUSTIVE = {"quick": False, "thorough": False}
 EXHAUSTIVE_NOTE = {"quick": "len.read exhaustive for length-octet strings of <= 2 octets x 3 modes",
                    "thorough": "len.write exhaustive for n < 2^20; len.read exhaustive for length-octet strings of <= 3 octets x 3 modes"}
